@@ -135,17 +135,38 @@ Definition is_plain_ident (s : string) : bool :=
 (* ------------------------------------------------------------------------- *)
 (** bound arguments *)
 
-(** the Go expression of a bound argument without representation conversions *)
+Fixpoint strip_prefix (pre s : string) : option string :=
+  match pre with
+  | EmptyString => Some s
+  | String a p => match s with
+                  | String c t => if (a =? c)%char then strip_prefix p t else None
+                  | EmptyString => None
+                  end
+  end.
+
+(** [fn(X)] -> [X] *)
+Definition strip_call (fn e : string) : option string :=
+  match strip_prefix (fn ++ "(") e with
+  | Some r => strip_suffix ")" r
+  | None => None
+  end.
+
+(** the Go expression of a bound argument without representation conversions: [.UnixNano()] / [.UTC()], and the saturating
+    form of the former (fix 9344673: SQLite clamps instants to the int64 nanosecond range, Postgres stores a timestamptz) *)
 Fixpoint strip_conv (fuel : nat) (e : string) : string :=
   match fuel with
   | O => e
   | S f =>
-    match strip_suffix ".UnixNano()" e with
+    match strip_call "saturatingUnixNano" e with
     | Some r => strip_conv f r
-    | None => match strip_suffix ".UTC()" e with
-              | Some r => strip_conv f r
-              | None => e
-              end
+    | None =>
+      match strip_suffix ".UnixNano()" e with
+      | Some r => strip_conv f r
+      | None => match strip_suffix ".UTC()" e with
+                | Some r => strip_conv f r
+                | None => e
+                end
+      end
     end
   end.
 
